@@ -73,3 +73,13 @@ Theorem C09_seeded_recovery_exact : forall (K : Fld), FldOk K -> forall (M : Mod
                (mkChals K (pc_y ch) (pc_z ch) (pc_es ch) (pc_e ch)) = r.
 Proof. exact seeded_recovery_exact. Qed.
 Print Assumptions C09_seeded_recovery_exact.
+
+(** Whole batches, every chunk boundary: whenever [verify_batch] returns Ok, the results are exactly
+    [map (mask_of mode) ms] — result i is the mask computed for member i of the WHOLE batch (Some only for a seeded,
+    non-aggregated member in a recovering mode), never shifted, dropped or padded by the split into chunks of 256. *)
+From BP Require Import Proofs.BatchTopP Proofs.BatchAlignP.
+Theorem C09_batch_results_aligned : forall (K : Fld) (ofN : N -> F K) (mode : vmode) (ns np nt : nat) (ms : list (member K))
+    (orc : list (list (F K) * bool)) (masks : list (option (list (F K)))),
+  verify_batch K ofN mode ns np nt ms orc = Ok masks -> masks = map (mask_of K ofN mode) ms.
+Proof. exact batch_results_aligned. Qed.
+Print Assumptions C09_batch_results_aligned.
